@@ -12,6 +12,8 @@ var (
 	ErrUnknownTreeId = errors.New("tree does not exist")
 	ErrTreeExists    = errors.New("tree already exists")
 	ErrUnknownChange = errors.New("change doesn't exist")
+	// ErrTreeStorageAlreadyDeleted is returned when a storage is requested for a tree id that carries a tombstone
+	ErrTreeStorageAlreadyDeleted = errors.New("tree storage already deleted")
 )
 
 type TreeStorageCreatePayload struct {
